@@ -71,7 +71,8 @@ TraceSpec == TraceInit /\ [][TraceNext]_tvars
 \* with the deviation AggReplace switched on, the aggregate keyspace is exempt from the two properties it breaks
 Chk == IF AggReplace THEN AllMaps \ {"agg"} ELSE AllMaps
 Mark == /\ CheckInv("UniquePerKey", UniquePerKeyOn(Chk)) /\ CheckInv("AnswerKeyed", AnswerKeyed)
-        /\ CheckInv("ExpiredRefused", ExpiredRefused) /\ CheckInv("Prompt", Prompt)
+        /\ CheckInv("ExpiredRefused", ExpiredRefused) /\ CheckInv("ExpiredGone", ExpiredGone)
+        /\ CheckInv("Prompt", Prompt)
         /\ CheckInv("AttIndexed", AttIndexed) /\ CheckInv("TypeOK", TypeOK)
 ActOK == /\ CheckInv("NeverReplaced", NeverReplacedOn(Chk))
          /\ CheckInv("OnlyStored", OnlyStoredStep)
